@@ -1,5 +1,6 @@
 """C05 - types, constraints and default values survive compilation exactly."""
 import ast
+import re
 
 from vt.grammar import shipped_dialects, PARSER, LEXER
 from vt.model import walk_no_nested, norm, dotted_name, module_value, class_attr_value
@@ -1173,6 +1174,60 @@ def r19_default_macro_renders_python(chk):
     r10_rendering_paths_are_python(chk, rule='C05.R19')
 
 
+def r20_every_default_has_a_value(chk):
+    """path rule: a record that reaches the caller as the default carries the value and its format"""
+    model = chk.model
+    ci = model.cls(INTER, 'IntermediateCodeGen')
+    mod = ci.mod
+    o, fn = ci.find_method('genDefVal')
+    chk.doc('C05.R20', 'genDefVal, path rule over its CFG (exception edges included, so a handler that swallows a failed conversion counts): every path from the entry to a '
+                       'return of the default record passes a statement that stores both `value` and `format` in it. '
+                       'Exempt, one reason: inside the enumeration arm (base type integer with a label list) a label '
+                       'the enumeration does not have stores nothing - the MIB is malformed there and the property '
+                       'speaks of the value written, which has no counterpart. A deleted raise, a conversion arm that '
+                       'lost its store or a new arm that falls through all reach the return without a value')
+    g = CFG(fn)
+    stores = ir.record_stores(fn)
+    rec_names = set(s_.var for s_ in stores if s_.key == ('basetype',))
+    chk.ob('C05.R20', 'genDefVal/record', len(rec_names) == 1, where(mod, fn), 'record locals: %s' % sorted(rec_names))
+    if len(rec_names) != 1:
+        return
+    rec = rec_names.pop()
+    by_stmt = {}
+    for s_ in stores:
+        if s_.var == rec:
+            by_stmt.setdefault(id(s_.node), set()).add(s_.key)
+    vnodes = set(g.node_of(s_.node) for s_ in stores if s_.var == rec and s_.key == ('value',)) - {None}
+    fnodes = set(g.node_of(s_.node) for s_ in stores if s_.var == rec and s_.key == ('format',)) - {None}
+    full = vnodes & fnodes
+    rets = []
+    for x in walk_no_nested(fn):
+        if isinstance(x, ast.Return) and x.value is not None:
+            v = x.value
+            if (isinstance(v, ast.Name) and v.id == rec) or (isinstance(v, ast.Dict) and any(
+                    isinstance(y, ast.Name) and y.id == rec for y in v.values)):
+                rets.append(x)
+    chk.ob('C05.R20', 'genDefVal/returns-and-stores-found', len(rets) >= 1 and len(vnodes) >= 8 and len(fnodes) >= 8, where(mod, fn),
+           '%d record returns, %d value stores, %d format stores' % (len(rets), len(vnodes), len(fnodes)))
+    # the exempt arm: statements under a positive `isinstance(<type>[1], list)` guard
+    exempt = set()
+    for n in g.stmt_nodes():
+        a = n.expr if n.expr is not None else n.ast
+        if a is None:
+            continue
+        st = common.stmt_of(a) if not isinstance(a, ast.stmt) else a
+        for test, in_body in ir.guards_of(st, fn):
+            if in_body and any(re.match(r'isinstance\(\w+\[1\], list\)$', norm(cj)) for cj in ir.conjuncts(test)):
+                exempt.add(n)
+    chk.ob('C05.R20', 'genDefVal/enumeration-arm-found', bool(exempt), where(mod, fn), '')
+    seen = g.reach([g.entry], avoid=vnodes | exempt) | g.reach([g.entry], avoid=fnodes | exempt)
+    for r_ in rets:
+        n = g.node_of(r_)
+        chk.ob('C05.R20', 'genDefVal/value-before %s' % norm(r_)[:40], n not in seen, where(mod, r_),
+               'a path reaches this return without storing value= and format= in the record: the default is emitted '
+               'without the value written in the MIB')
+
+
 RULES = [r1_number_classifier, r2_value_alternatives, r3_literal_conversion, r4_ranges, r5_enum_bits,
          r7_base_type_walk, r8_defval, r9_syntax_productions, r10_collectors, r11_guard_slice_agreement,
-         r12_defval_decision_table, r6_constraints_macro, r13_labels_compared_as_written, r12_literals_reach_the_generators_as_written, r_absent_values_C05_R14, r16_subtype_reaches_the_record, r17_default_stored_whenever_present, r_no_partial_key_memo, r19_default_macro_renders_python]
+         r12_defval_decision_table, r6_constraints_macro, r13_labels_compared_as_written, r12_literals_reach_the_generators_as_written, r_absent_values_C05_R14, r16_subtype_reaches_the_record, r17_default_stored_whenever_present, r_no_partial_key_memo, r19_default_macro_renders_python, r20_every_default_has_a_value]
